@@ -28,39 +28,59 @@ MANIFEST = dict(
               "arguments as explicit state + differential correspondence with the implementation (results in order, exception "
               "class, contents of _findall.__defaults__ after every call) + the statement executed on the implementation",
     text="Lean (Props/C19.lean), all unbounded in tree size, depth, expression and history length, for the code with "
-         "fixes C19-a/C19-b/C19-c applied: C19_state_invariant - a search started from the fresh default objects ([], {}) "
-         "leaves them ([], {}), for every tree, expression and outcome (exceptions included); C19_objects_untouched - no call "
-         "of _findall modifies the stack dict it received and an empty path list stays empty; C19_list_changes_last_only - a "
-         "call changes at most the last element of the list it received; C19_history_independent - in every sequence of "
-         "searches on the same or different trees each result equals the result of the same search run alone; "
-         "C19_findfirst_state - the same for findfirst; C19_pure - every value returned occurs in the tree searched (the "
-         "model returns values only; that the real code does not write into the tree is checked by the evaluators); "
-         "C19_exact_path - for a dict-rooted tree the canonical xpath of a non-root position made of plain keys and of "
-         "indexes of container elements finds exactly one pair (that xpath, that node); C19_resolves - that key resolves "
-         "through the item-access model (C01 engine) to the same node, tree unchanged; C19_findfirst - findfirst is the "
-         "single pair / (None, None) / IndexError exactly as documented; C19_fanout, C19_fanout_all - a name applied to a "
-         "list of containers is the [*] step followed by the name and returns the merged outcomes of all elements in "
-         "order under the paths ...[i]. Descendant wildcard, for dict-rooted trees whose keys are plain names, no "
-         "dictionary listing a key twice, every list containing only dicts/lists (KeysOkV, ContOkV): "
-         "C19_descendant_complete - '//*/name' returns exactly the pairs (canonical xpath of p, node at p) for the "
+         "fixes C19-a/C19-b/C19-c applied. n0dict.findall and n0list.findall hand self to the same findall(), so the model has "
+         "one entry point (findallTop) for both roots. FOR EVERY ROOT (dict or list, any tree): C19_state_invariant - a search "
+         "started from the fresh default objects ([], {}) leaves them ([], {}), for every tree, expression and outcome "
+         "(exceptions included); C19_objects_untouched - no call of _findall modifies the stack dict it received and an empty "
+         "path list stays empty; C19_list_changes_last_only - a call changes at most the last element of the list it "
+         "received; C19_history_independent - in every sequence of searches on the same or different trees (dict- and "
+         "list-rooted mixed) each result equals the result of the same search run alone; C19_depends_only - hence the outcome "
+         "of a search after any history is a function of the tree and the expression alone; C19_findfirst_state - the same "
+         "for findfirst; C19_pure - every value returned occurs in the tree searched (the model returns values only and does "
+         "not thread the tree, so 'the tree is returned unchanged' has no content as a theorem: it is checked on the "
+         "implementation by stream fa.pure and the evaluators); C19_findfirst - findfirst is the single pair / (None, None) / "
+         "IndexError exactly as documented; C19_fanout - a name applied to a list is the [*] step followed by the name; "
+         "C19_descendant_positions - descV lists (p, w) iff p ends with the key name and the node at p is w (both inclusions, "
+         "any depth, through dicts and lists); C19_descendant_distinct - no position twice, canonical xpaths of distinct "
+         "plain positions differ. FOR DICT-ROOTED TREES: C19_exact_path - the canonical xpath of a non-root position made of "
+         "plain keys and of indexes of container elements finds exactly one pair (that xpath, that node); C19_resolves - that "
+         "key resolves through the item-access model (C01 engine) to the same node, tree unchanged; C19_fanout_all - a name "
+         "applied to a list of containers below the root returns the merged outcomes of all elements in order under the paths "
+         "...[i]; with keys plain, no dictionary listing a key twice, every list containing only dicts/lists (KeysOkV, "
+         "ContOkV): C19_descendant_complete - '//*/name' returns exactly the pairs (canonical xpath of p, node at p) for the "
          "positions p listed by descV, in document order (a node's own entry first, then below each child in key / element "
-         "order); C19_descendant_positions - descV lists (p, w) iff p ends with the key name and the node at p is w (both "
-         "inclusions, any depth, through dicts and lists); C19_descendant_distinct - no position twice, canonical xpaths "
-         "of distinct plain positions differ; C19_descendant_complete_iff - the same as a membership equivalence. Every "
-         "key resolves, for dict-rooted trees with plain keys and no key twice and EVERY expression (names, '*', indexes "
-         "incl. negative and last()+-k, [*], '..', text() conditions): C19_keys_spell - each key of each result is '//' + "
-         "steps (keys, attached integer indexes as written) along which plain Python indexing from the root reaches the "
-         "value, proved through the invariant 'the found-path list renders the position of the current node and every "
-         "proper prefix registered in the stack is registered with its node' over every branch of _findall with the state "
-         "threading of the model; C19_resolves_all - hence item access and get (C01 engine, C01_spellings_string) return "
-         "that value and leave the tree unchanged. C19_text_key_fixed (witness of the former finding C19-c), "
-         "C19_scalar_in_list_cex (outside the quantifier). NOT proved, differential only: the descendant and resolution "
-         "statements for list-rooted containers (n0list.findall), object identity, the real tree not being written. The "
-         "model is compared with the real findall/_findall/findfirst on results in order, exception class and the contents "
-         "of _findall.__defaults__ after every call, single searches and sequences; the statement itself (identity `is`, "
-         "item access and get per key, each key walked by plain indexing, tree unchanged, defaults empty, in-sequence == "
-         "freshly loaded module, fan-out, descendant in document order and again after other searches on the same object, "
-         "findfirst) is executed on the implementation.",
+         "order); C19_descendant_complete_iff - the same as a membership equivalence; for plain keys and no key twice and "
+         "EVERY expression (names, '*', indexes incl. negative and last()+-k, [*], '..', text() conditions): C19_keys_spell - "
+         "each key of each result is '//' + steps (keys, attached integer indexes as written) along which plain Python "
+         "indexing from the root reaches the value, proved through the invariant 'the found-path list renders the position of "
+         "the current node and every proper prefix registered in the stack is registered with its node' over every branch of "
+         "_findall with the state threading of the model; C19_resolves_all - hence item access and get (C01 engine, "
+         "C01_spellings_string) return that value and leave the tree unchanged. FOR LIST-ROOTED CONTAINERS (n0list.findall; "
+         "Proofs/FindAllList.lean; the canonical xpath of a position p below a list root is '//' + rendered p, e.g. "
+         "//[1][0]/a/b[2], the first element of the path list being a group without a name created by the rebinding of the "
+         "empty list to ['']): C19_exact_path_list - the canonical xpath of a position [n]+rest (indexes of container "
+         "elements, plain keys), written with the prefix '//', '/' or none, finds exactly one pair ('//'+rendered position, "
+         "that node), defaults untouched; C19_fanout_all_root - a name applied to the list root itself returns the merged "
+         "outcomes of all elements in order under the paths [i]; under KeysOkV, ContOkV (the root list included): "
+         "C19_descendant_complete_list - '//*/name' returns exactly the pairs ('//'+rendered p, node at p) for the positions "
+         "p of descV, element by element in document order, nothing else; C19_descendant_complete_iff_list - the membership "
+         "form; under KeysOkV only and for EVERY expression: C19_keys_spell_list - each key of each result is '//' + steps "
+         "(first the integer indexes applied at the root, then keys with attached indexes) along which plain Python indexing "
+         "from the root list reaches the value, proved through the list-root invariant FalInv over every branch of _findall; "
+         "C19_resolves_all_list - hence item access and get on the n0list (C01 engine, C01_spellings_string_list; the key "
+         "'//' = the root itself) return that value and leave the tree unchanged; C19_resolves_list - in particular the key of "
+         "an exact-path result. C19_text_key_fixed (witness of the former finding C19-c), C19_scalar_in_list_cex, "
+         "C19_scalar_in_list_root_cex (a scalar in a list under a wildcard/name raises IndexError: outside the quantifier). "
+         "NOT proved, checked on the implementation only: object identity (`is`), and that the real code does not write "
+         "into the tree (the model is a pure function that does not thread the tree). The model is compared with the real "
+         "findall/_findall/findfirst on results in order, exception class and the contents of _findall.__defaults__ after "
+         "every call, single searches and sequences, half of the trees list-rooted; stream fa.pure also compares the encoding "
+         "of the real container after the call with the tree the model was given; the statement itself (identity `is`, item "
+         "access and get per key, each key walked by plain indexing, tree unchanged, defaults empty, in-sequence == freshly "
+         "loaded module, fan-out also at a list root, descendant in document order and again after other searches on the "
+         "same object, findfirst none/one/many also on list roots, findall/findfirst on list- and dict-rooted containers "
+         "interleaved and repeated in one process with encoding and identity of every node unchanged) is executed on the "
+         "implementation.",
     note="keys are plain names (an n0dict resolves keys containing '/' or '[' as xpaths); lower()/isnumeric() beyond ASCII "
          "are outside the model (answered 'unsupported'); object identity is checked on the implementation only.",
     design_ref="5/C19",
